@@ -365,6 +365,9 @@ func BfeTlsRuleConfCheck(conf *BfeTlsRuleConf) error {
 	}
 
 	for product, rule := range conf.Config {
+		if rule == nil {
+			return fmt.Errorf("BfeTlsRuleConfCheck(): no rule for %s", product)
+		}
 		if err := TlsRuleConfCheck(rule); err != nil {
 			return fmt.Errorf("BfeTlsRuleConfCheck(): %s wrong rule %s", product, err)
 		}
